@@ -40,6 +40,8 @@ in which case it is a violation with the concrete input.  The oracle runs on eve
 """
 import math
 import random
+import signal
+import threading
 import warnings
 from fractions import Fraction
 
@@ -255,6 +257,19 @@ def make_source(rng, kind=None):
 # --------------------------------------------------------------------------
 # the real deblender under recording wrappers
 # --------------------------------------------------------------------------
+CASE_TIMEOUT = 20.0      # seconds of wall clock per real deblender call (backstop only)
+
+
+class NonTermination(Exception):
+    """the real per-source deblender does not stop: more watershed calls than pixels (the model's contrast
+    loop removes one label per call, so it makes at most as many calls as there are marker labels), or the
+    wall-clock backstop fired"""
+
+
+def _alarm(signum, frame):
+    raise NonTermination(f'no result within {CASE_TIMEOUT:g} s')
+
+
 class _Recorder:
     def __init__(self):
         self.levels = []
@@ -270,6 +285,9 @@ class _Recorder:
         rec = self
 
         def watershed(image, markers=None, *args, **kwargs):
+            if len(rec.calls) > rec.current['data'].size + 2:
+                raise NonTermination(f'{len(rec.calls)} watershed calls for a cutout of '
+                                     f'{rec.current["data"].size} pixels')
             out = rec.orig_ws(image, markers, *args, **kwargs)
             cur = rec.current
             ok = (not args and set(kwargs) == {'mask', 'connectivity'}
@@ -310,15 +328,24 @@ def run_real(rec, data, seg, label, npixels, nlevels, contrast, mode, connectivi
     rec.current = {'data': data.copy(), 'mask': seg == label, 'npixels': npixels, 'footprint': footprint}
     params = D._DeblendParams(npixels, footprint, nlevels, contrast, mode)
     data_in, seg_in = data.copy(), seg.copy()
-    with warnings.catch_warnings():
-        warnings.simplefilter('ignore')
-        deb = D._SingleSourceDeblender(data_in, seg_in, label, params)
-        try:
-            res = deb.deblend_source()
-            code = 0 if res is None else 1
-            exc = None
-        except ValueError as e:
-            res, code, exc = None, 2, repr(e)[:200]
+    use_alarm = threading.current_thread() is threading.main_thread() and hasattr(signal, 'setitimer')
+    if use_alarm:
+        old_handler = signal.signal(signal.SIGALRM, _alarm)
+        signal.setitimer(signal.ITIMER_REAL, CASE_TIMEOUT)
+    try:
+        with warnings.catch_warnings():
+            warnings.simplefilter('ignore')
+            deb = D._SingleSourceDeblender(data_in, seg_in, label, params)
+            try:
+                res = deb.deblend_source()
+                code = 0 if res is None else 1
+                exc = None
+            except ValueError as e:
+                res, code, exc = None, 2, repr(e)[:200]
+    finally:
+        if use_alarm:
+            signal.setitimer(signal.ITIMER_REAL, 0)
+            signal.signal(signal.SIGALRM, old_handler)
     warns = dict(deb.warnings)
     if not (np.array_equal(data_in, data) and np.array_equal(seg_in, seg)):
         rec.protocol.append('the deblender modified its input arrays')
@@ -407,8 +434,14 @@ def run_marker_correspondence(ctx, n_cases):
                 e = exc
                 desc = {'data': data.tolist(), 'segment_data': seg.tolist(), 'label': label, 'npixels': npixels,
                         'nlevels': nlevels, 'contrast': contrast, 'mode': mode, 'connectivity': connectivity}
-                ctx.violation('correspondence:C06M_Model:deblend_source-raises',
-                              'the per-source deblender raised ' + repr(e)[:200], desc, found_input=False)
+                if isinstance(e, NonTermination):
+                    ctx.violation('correspondence:C06M_Model:non-termination',
+                                  'the per-source deblender does not terminate on this input (' + str(e) + '); the '
+                                  'model stops after at most one watershed call per marker label', desc,
+                                  found_input=False)
+                else:
+                    ctx.violation('correspondence:C06M_Model:deblend_source-raises',
+                                  'the per-source deblender raised ' + repr(e)[:200], desc, found_input=False)
                 out_counts['disagreements'] += 1
                 continue
             desc = {'kind': kind, 'data': data.tolist(), 'segment_data': seg.tolist(), 'label': int(label),
